@@ -347,6 +347,21 @@ def _sigops_shard(arg):
                     t = dict(txd, ins=[(txd["ins"][0][0], 1, ss, 0xFFFFFFFE)])
                     for fs in flag_sets(["NULLDUMMY", "NULLFAIL", "SIGPUSHONLY"]):
                         judge_spend(st, "C08/sigops/multisig", t, 0, [(amount, spk)], None, fs, {"k": k, "n": n, "order": order, "dummy": dummy.hex()}, arms=(True,))
+            # FindAndDelete removes EVERY signature of the set from the script code, not only the one under check: a script
+            # that carries a push of the second signature (dropped) is signed for with both pushes removed
+            if (k, n) == (2, 2):
+                base_ms = spk
+                stripped = b"\x75" + base_ms
+                fsigs = []
+                for d in ds[:2]:
+                    r, s_ = ref_ecdsa_sign(d, S.legacy(txd, 0, stripped, 1))
+                    fsigs.append(der(r, min(s_, N - s_)) + b"\x01")
+                for which_in, nm_in in ((1, "second-sig-in-script"), (0, "first-sig-in-script")):
+                    full = M.push(fsigs[which_in]) + stripped
+                    ss = b"\x00" + M.push(fsigs[0]) + M.push(fsigs[1])
+                    t = dict(txd, ins=[(txd["ins"][0][0], 1, ss, 0xFFFFFFFE)])
+                    for fs in flag_sets(["CONST_SCRIPTCODE", "NULLFAIL"]):
+                        judge_spend(st, "C08/sigops/multisig-findanddelete", t, 0, [(amount, full)], None, fs, {"sig": nm_in, "k": k, "n": n}, arms=(True, False))
             # one signature empty / wrong
             if k >= 1 and n >= 2:
                 for bad in (b"", sigs[0][:-2] + b"\x01"):
@@ -394,6 +409,30 @@ def _sigops_shard(arg):
                         wit = [wit_items + [script, cb] + ([] if not extra else [])]
                         for fs in flag_sets(["DISCOURAGE_UPGRADABLE_PUBKEYTYPE", "TAPROOT"]):
                             judge_spend(st, "C08/sigops/tapscript", txd, 0, prevs, wit, fs, {"script": nm, "sig": sname, "ht": ht})
+        # the sigops budget spent exactly, one short and one over: k x (2DUP CHECKSIGVERIFY) then CHECKSIG on one signature,
+        # the witness padded with a dropped item so that 50 + witness_size - 50*(k+1) is -1, 0, +1 ... to the byte
+        for kk in (2, 3, 4):
+            for delta in (-2, -1, 0, 1):
+                for padlen in range(0, 400):
+                    script = (b"\x75" if padlen else b"") + M.push(xk) + b"\x6e\xad" * kk + b"\xac"
+                    internal = R.mul_fast(9, B.G_K1, B.P_K1, 0)[0]
+                    leaves, root = T.tree_helper((0xC0, script))
+                    out = T.tweak_pubkey(internal, root)
+                    cb = T.control_block(internal, out[1], 0xC0, b"")
+                    items = [bytes(64)] + ([bytes(padlen - 1)] if padlen else []) + [script, cb]
+                    budget = 50 + M.ser_witness_size(items)
+                    if budget - 50 * (kk + 1) == delta:
+                        break
+                else:
+                    continue
+                spk = b"\x51\x20" + out[0].to_bytes(32, "big")
+                prevs = [(amount, spk)]
+                digest = S.taproot(txd, 0, prevs, 0, b"", S.tapleaf_ext(T.leaf_hash(0xC0, script)))
+                r, s_ = B.sign(d1, digest, bytes(32), B.K1)
+                sig64 = r.to_bytes(32, "big") + s_.to_bytes(32, "big")
+                items[0] = sig64
+                for fs in flag_sets(["TAPROOT"]):
+                    judge_spend(st, "C08/sigops/tapscript-budget", txd, 0, prevs, [items], fs, {"sig": f"budget-minus-cost={delta}", "checks": kk + 1, "padding": padlen})
     st.sample({"family": which})
     return st
 
